@@ -197,7 +197,18 @@ pub fn decodable_ext(em: &Emitted, fdts: &[FdtView], ov: &ObjView, delivered: &[
         None => return false,
     };
     let first_obj_pos = if late_fdt {
-        delivered.iter().position(|k| em.stream[*k].toi() == ov.toi && em.stream[*k].dec.lct.b).unwrap_or(delivered.len())
+        let b_pos = delivered.iter().position(|k| em.stream[*k].toi() == ov.toi && em.stream[*k].dec.lct.b);
+        // FDT-only OTI, packets of the object delivered in emission order with the close-object packet last: the
+        // packets wait in the cache, the FDT may arrive after all of them
+        let i = em.obj_index_of(ov.toi).unwrap_or(0);
+        let obj_order: Vec<usize> = delivered.iter().copied().filter(|k| em.stream[*k].toi() == ov.toi).collect();
+        let in_order = obj_order.windows(2).all(|w| w[0] < w[1]);
+        let b_last = b_pos.map(|p| delivered[p] == *obj_order.last().unwrap()).unwrap_or(true);
+        if !em.oti_of(i).inband_fti && in_order && b_last {
+            delivered.len()
+        } else {
+            b_pos.unwrap_or(delivered.len())
+        }
     } else {
         first_obj_pos
     };
